@@ -87,7 +87,8 @@ func buildDidModel(p *Prog) *didModel {
 }
 
 // stateAtoms maps the atoms of a formula to the three state atoms of a stored entry X:
-//   n: X.Document == nil     e: X.Document.Id == ""     z: X.Sequence == 0
+//
+//	n: X.Document == nil     e: X.Document.Id == ""     z: X.Sequence == 0
 func didStateOf(f *Formula, X *Term) *Formula {
 	switch f.Kind {
 	case FAtom:
@@ -397,8 +398,9 @@ func didRules(p *Prog, r *Report, clause string, want func(string) bool) *didMod
 }
 
 // proofRoles determines which parameter of the proof function plays which role, from its own body:
-//   data/seq/sig = parameters reaching the verify function's data/seq/sig, doc = parameter whose Authentications field
-//   feeds the key lookup, id = the remaining string parameter used in that lookup.
+//
+//	data/seq/sig = parameters reaching the verify function's data/seq/sig, doc = parameter whose Authentications field
+//	feeds the key lookup, id = the remaining string parameter used in that lookup.
 func proofRoles(p *Prog, m *didModel, pf *ssa.Function) (map[string]int, string) {
 	if pf == nil {
 		return nil, "proof function is not statically resolved"
